@@ -214,8 +214,15 @@ def run_annotate(ctx, path, raw, label):
             for replace in ((False, True) if kind != "partial" or (a + b_) % 4 == 0 else (False,)):
                 case = {"cooler": label, "pixels": [list(p) for p in px], "bins": kind, "view": [a, b_], "replace": replace}
                 ctx.case(case, nontrivial=bool(px), kind=f"annotate:{kind}:{'contains' if contains else 'lacks'}")
+                before = (pdf.copy(deep=True), binsarg.copy(deep=True) if isinstance(binsarg, pd.DataFrame) else None)
                 try:
                     out = cooler.annotate(pdf, binsarg, replace=replace)
+                    # the caller's frames are inputs, not scratch space
+                    if not (pdf.equals(before[0]) and list(pdf.columns) == list(before[0].columns) and pdf.index.equals(before[0].index)
+                            and pdf.dtypes.equals(before[0].dtypes)):
+                        ctx.fail(case, {"detail": "annotate modified the caller's pixel frame"}, None)
+                    if before[1] is not None and not (binsarg.equals(before[1]) and binsarg.index.equals(before[1].index)):
+                        ctx.fail(case, {"detail": "annotate modified the caller's bin table"}, None)
                     idx = [int(x) for x in out.index.tolist()]
                     got = []
                     for k in range(len(out)):
